@@ -313,10 +313,10 @@ Proof.
     intros c H. clear - H. cfact.
 Qed.
 
-Lemma pt_agg_std rec g v : wf_aggf g v = true ->
+Lemma pt_agg_std rec g v : wf_aggf E g v = true -> is_ranking g = false ->
   parse_term_step E rec (show_aggf E g ++ 60 :: v ++ [62]) = Some (TAgg g v).
 Proof.
-  intros W. destruct (std_agg_name E g v W) as (NE & I & R & IV).
+  intros W R. destruct (std_agg_name E g v W R) as (NE & I & IV).
   unfold ident in IV. destruct v as [|c v]; try discriminate.
   assert (TV : trim (c :: v) = c :: v).
   { apply trim_all_nws. eapply forallb_impl; [|exact IV]. intros x H. rewrite (idc_nws x H). reflexivity. }
@@ -416,6 +416,342 @@ Proof.
     + cbn [app first_is]. apply N.eqb_neq. intros ->. discriminate.
 Qed.
 
+(* ------------------------------------------------------------------ ranking aggregates *)
+Definition ann_t (ord : str) (single desc : bool) (v : str) : str :=
+  if str_eqb v ord then (if single && desc then [] else if desc then lit ":desc"%string else lit ":asc"%string) else [].
+Definition ann_w (dv : str) (single : bool) (v : str) : str :=
+  if str_eqb v dv then (if single then [] else lit ":asc"%string) else [].
+Lemma show_outs_concat ord single desc outs :
+  show_outs ord single desc outs = concat (List.map (fun v => 44 :: 32 :: v ++ ann_t ord single desc v) outs).
+Proof.
+  induction outs as [|v outs IH]. reflexivity. cbn [List.map concat]. rewrite <- IH.
+  cbn [show_outs]. unfold ann_t. cbn [app]. rewrite <- ?app_assoc. reflexivity.
+Qed.
+Lemma show_outs_within_concat dv single outs :
+  show_outs_within dv single outs = concat (List.map (fun v => 44 :: 32 :: v ++ ann_w dv single v) outs).
+Proof.
+  induction outs as [|v outs IH]. reflexivity. cbn [List.map concat]. rewrite <- IH.
+  cbn [show_outs_within]. unfold ann_w. cbn [app]. rewrite <- ?app_assoc. reflexivity.
+Qed.
+
+Definition nocomma (x : str) : bool := forallb (fun c => negb (c =? 44)) x.
+Lemma split_comma_parts ps : forall x0 cur, nocomma x0 = true -> forallb nocomma ps = true ->
+  split_comma (x0 ++ concat (List.map (fun p => 44 :: 32 :: p) ps)) cur
+  = (rev cur ++ x0) :: List.map (cons 32) ps.
+Proof.
+  induction ps as [|p ps IH]; intros x0 cur H0 H.
+  - cbn [List.map concat]. rewrite split_comma_skip by exact H0. cbn [split_comma].
+    rewrite rev_app_distr, rev_involutive. reflexivity.
+  - cbn [forallb] in H. apply andb_true_iff in H as [Hp Hps].
+    cbn [List.map concat]. rewrite split_comma_skip by exact H0. cbn [app split_comma]. ceq.
+    rewrite rev_app_distr, rev_involutive. f_equal.
+    change (32 :: p ++ concat (List.map (fun p0 => 44 :: 32 :: p0) ps))
+      with ((32 :: p) ++ concat (List.map (fun p0 => 44 :: 32 :: p0) ps)).
+    rewrite IH; auto.
+Qed.
+
+Lemma ident_nocomma v : ident v = true -> nocomma v = true.
+Proof.
+  unfold ident, nocomma. destruct v; [discriminate|]. intros H. eapply forallb_impl; [|exact H].
+  intros c I. clear - I. cfact.
+Qed.
+Lemma ident_trim v : ident v = true -> trim v = v.
+Proof.
+  unfold ident. destruct v; [discriminate|]. intros H. apply trim_all_nws.
+  eapply forallb_impl; [|exact H]. intros c I. rewrite (idc_nws c I). reflexivity.
+Qed.
+
+(* strip_suffix on annotated and plain variable texts *)
+Lemma starts_with_self p s : starts_with p (p ++ s) = true.
+Proof. induction p; cbn; auto. rewrite N.eqb_refl. auto. Qed.
+Lemma strip_suffix_hit suf v : strip_suffix suf (v ++ suf) = Some v.
+Proof.
+  unfold strip_suffix, ends_with. rewrite rev_app_distr, starts_with_self.
+  rewrite app_length. replace (length v + length suf - length suf)%nat with (length v) by lia.
+  rewrite firstn_app, Nat.sub_diag, firstn_all. cbn. rewrite app_nil_r. reflexivity.
+Qed.
+Lemma ends_with_colon5 a b c d v : forallb idc v = true -> ends_with [58; a; b; c; d] v = false.
+Proof.
+  intros H. unfold ends_with. rewrite <- forallb_rev in H. cbn [rev app].
+  destruct (rev v) as [|x1 [|x2 [|x3 [|x4 [|x5 t]]]]]; cbn [starts_with]; rewrite ?andb_false_r; auto.
+  cbn [forallb] in H. bools. destruct (58 =? x5) eqn:Q; rewrite ?andb_false_r; auto.
+  apply N.eqb_eq in Q. subst. discriminate.
+Qed.
+Lemma ends_with_colon4 a b c v : forallb idc v = true -> ends_with [58; a; b; c] v = false.
+Proof.
+  intros H. unfold ends_with. rewrite <- forallb_rev in H. cbn [rev app].
+  destruct (rev v) as [|x1 [|x2 [|x3 [|x4 t]]]]; cbn [starts_with]; rewrite ?andb_false_r; auto.
+  cbn [forallb] in H. bools. destruct (58 =? x4) eqn:Q; rewrite ?andb_false_r; auto.
+  apply N.eqb_eq in Q. subst. discriminate.
+Qed.
+Lemma strip_plain v : ident v = true ->
+  strip_suffix (lit ":desc") v = None /\ strip_suffix (lit ":asc") v = None.
+Proof.
+  unfold ident. destruct v as [|c v]; [discriminate|]. intros H. unfold strip_suffix.
+  change (lit ":desc") with [58; 100; 101; 115; 99]. change (lit ":asc") with [58; 97; 115; 99].
+  rewrite ends_with_colon5, ends_with_colon4 by exact H. auto.
+Qed.
+Lemma strip_desc_asc v : strip_suffix (lit ":desc") (v ++ lit ":asc") = None.
+Proof.
+  unfold strip_suffix, ends_with. rewrite rev_app_distr.
+  change (rev (lit ":asc")) with [99; 115; 97; 58]. change (rev (lit ":desc")) with [99; 115; 101; 100; 58].
+  cbn [app starts_with]. ceq. reflexivity.
+Qed.
+
+Lemma annotated_plain ps : forall acc o d, forallb ident ps = true ->
+  annotated ps acc o d = Some (rev acc ++ ps, o, d).
+Proof.
+  induction ps as [|p ps IH]; intros acc o d H.
+  - cbn [annotated]. rewrite app_nil_r. reflexivity.
+  - cbn [forallb] in H. apply andb_true_iff in H as [Hp Hps].
+    cbn [annotated]. rewrite (ident_trim p Hp). destruct (strip_plain p Hp) as [S1 S2]. rewrite S1, S2.
+    rewrite IH by auto. cbn [rev]. rewrite <- app_assoc. reflexivity.
+Qed.
+Lemma annotated_app a b : forall acc o d,
+  annotated (a ++ b) acc o d =
+  match annotated a acc o d with Some (x, o', d') => annotated b (rev x) o' d' | None => None end.
+Proof.
+  induction a as [|p a IH]; intros acc o d.
+  - cbn [app annotated]. rewrite rev_involutive. reflexivity.
+  - cbn [app annotated]. destruct (strip_suffix (lit ":desc") (trim p)).
+    + destruct o; auto.
+    + destruct (strip_suffix (lit ":asc") (trim p)); [destruct o; auto|auto].
+Qed.
+
+Lemma count0_neq ord l : count_str ord l = O -> forall v, In v l -> str_eqb v ord = false.
+Proof.
+  induction l as [|x l IH]; intros H v I. contradiction.
+  cbn [count_str] in H. destruct (str_eqb ord x) eqn:Q; [discriminate|].
+  destruct I as [->|I]. rewrite str_eqb_sym. exact Q. apply IH; auto.
+Qed.
+Lemma count1_split ord l : count_str ord l = 1%nat ->
+  exists pre post, l = pre ++ ord :: post /\ count_str ord pre = O /\ count_str ord post = O.
+Proof.
+  induction l as [|x l IH]; intros H. discriminate.
+  cbn [count_str] in H. destruct (str_eqb ord x) eqn:Q.
+  - apply str_eqb_eq in Q. subst x. exists [], l. repeat split; auto; try (cbn in H; lia).
+  - destruct (IH H) as (pre & post & -> & A & B). exists (x :: pre), post. repeat split; auto.
+    cbn [count_str]. rewrite Q. exact A.
+Qed.
+Lemma map_ext_in' {A B} (f g : A -> B) l : (forall x, In x l -> f x = g x) -> List.map f l = List.map g l.
+Proof. apply map_ext_in. Qed.
+
+(* the annotated variable list of a ranking aggregate parses back *)
+Lemma annotated_outs ord outs (sfx : str) (flag : bool) dflt :
+  forallb ident outs = true -> count_str ord outs = 1%nat ->
+  (sfx = lit ":desc"%string /\ flag = true \/ sfx = lit ":asc"%string /\ flag = false) ->
+  annotated (List.map (fun v => v ++ (if str_eqb v ord then sfx else [])) outs) [] None dflt
+  = Some (outs, Some ord, flag).
+Proof.
+  intros I C S. destruct (count1_split ord outs C) as (pre & post & -> & C1 & C2).
+  rewrite forallb_app in I. apply andb_true_iff in I as [Ipre I]. cbn [forallb] in I.
+  apply andb_true_iff in I as [Iord Ipost].
+  rewrite map_app. cbn [List.map]. rewrite str_eqb_refl.
+  rewrite (map_ext_in' _ (fun v => v) pre).
+  2:{ intros x Hx. rewrite (count0_neq ord pre C1 x Hx). apply app_nil_r. }
+  rewrite (map_ext_in' _ (fun v => v) post).
+  2:{ intros x Hx. rewrite (count0_neq ord post C2 x Hx). apply app_nil_r. }
+  rewrite !map_id. rewrite annotated_app, annotated_plain by auto. cbn [rev app].
+  cbn [annotated].
+  assert (TR : trim (ord ++ sfx) = ord ++ sfx).
+  { unfold ident in Iord. destruct ord as [|c o']; [discriminate|].
+    apply trim_id. cbn [app first_nws forallb] in *. apply andb_true_iff in Iord as [Q _].
+    rewrite (idc_nws c Q). reflexivity.
+    apply last_nws_app. destruct S as [[-> _]|[-> _]]; reflexivity. }
+  rewrite TR. destruct S as [[-> ->]|[-> ->]].
+  - rewrite strip_suffix_hit. rewrite (ident_trim ord Iord).
+    rewrite annotated_plain by auto. cbn [rev]. rewrite rev_involutive, <- app_assoc. reflexivity.
+  - rewrite strip_desc_asc, strip_suffix_hit. rewrite (ident_trim ord Iord).
+    rewrite annotated_plain by auto. cbn [rev]. rewrite rev_involutive, <- app_assoc. reflexivity.
+Qed.
+
+Lemma wf_outs_parts ord outs : wf_outs ord outs = true ->
+  outs <> [] /\ forallb ident outs = true /\ count_str ord outs = 1%nat.
+Proof.
+  unfold wf_outs. intros H. apply andb_true_iff in H as [H C]. apply andb_true_iff in H as [NE I].
+  repeat split; auto. intros ->. discriminate. apply Nat.eqb_eq. exact C.
+Qed.
+Lemma single_outs ord (outs : list str) : is_single outs = true -> count_str ord outs = 1%nat -> outs = [ord].
+Proof.
+  destruct outs as [|x [|y t]]; try discriminate. intros _ C. cbn [count_str] in C.
+  destruct (str_eqb ord x) eqn:Q; [|discriminate]. apply str_eqb_eq in Q. subst. reflexivity.
+Qed.
+
+Lemma parse_annotated_topk ord outs desc : wf_outs ord outs = true ->
+  parse_annotated (List.map (fun v => v ++ ann_t ord (is_single outs) desc v) outs) true
+  = Some (outs, ord, desc).
+Proof.
+  intros W. destruct (wf_outs_parts ord outs W) as (NE & I & C). unfold parse_annotated.
+  destruct (List.map (fun v => v ++ ann_t ord (is_single outs) desc v) outs) eqn:M.
+  { apply map_eq_nil in M. exfalso. apply NE. exact M. }
+  rewrite <- M. clear M.
+  destruct (is_single outs && desc) eqn:SD.
+  - apply andb_true_iff in SD as [S D]. subst desc. rewrite (single_outs ord outs S C) in *.
+    cbn [List.map is_single]. unfold ann_t. rewrite str_eqb_refl. cbn [andb app].
+    cbn [forallb] in I. apply andb_true_iff in I as [Io _]. rewrite app_nil_r.
+    cbn [annotated]. rewrite (ident_trim ord Io). destruct (strip_plain ord Io) as [S1 S2].
+    rewrite S1, S2. cbn [annotated rev]. reflexivity.
+  - assert (EQ : List.map (fun v => v ++ ann_t ord (is_single outs) desc v) outs
+                 = List.map (fun v => v ++ (if str_eqb v ord then (if desc then lit ":desc"%string else lit ":asc"%string) else [])) outs).
+    { apply map_ext. intros v. unfold ann_t. rewrite SD. reflexivity. }
+    rewrite EQ. destruct desc.
+    + rewrite (annotated_outs ord outs (lit ":desc"%string) true true); auto.
+    + rewrite (annotated_outs ord outs (lit ":asc"%string) false true); auto.
+Qed.
+Lemma parse_annotated_within dv outs : wf_outs dv outs = true ->
+  exists d, parse_annotated (List.map (fun v => v ++ ann_w dv (is_single outs) v) outs) false = Some (outs, dv, d).
+Proof.
+  intros W. destruct (wf_outs_parts dv outs W) as (NE & I & C). unfold parse_annotated.
+  destruct (List.map (fun v => v ++ ann_w dv (is_single outs) v) outs) eqn:M.
+  { apply map_eq_nil in M. exfalso. apply NE. exact M. }
+  rewrite <- M. clear M.
+  destruct (is_single outs) eqn:S.
+  - rewrite (single_outs dv outs S C) in *. cbn [List.map]. unfold ann_w. rewrite str_eqb_refl.
+    cbn [forallb] in I. apply andb_true_iff in I as [Io _]. rewrite app_nil_r.
+    cbn [annotated]. rewrite (ident_trim dv Io). destruct (strip_plain dv Io) as [S1 S2].
+    rewrite S1, S2. cbn [annotated rev]. eexists. reflexivity.
+  - assert (EQ : List.map (fun v => v ++ ann_w dv false v) outs
+                 = List.map (fun v => v ++ (if str_eqb v dv then lit ":asc"%string else [])) outs).
+    { apply map_ext. intros v. reflexivity. }
+    rewrite EQ. rewrite (annotated_outs dv outs (lit ":asc"%string) false false); auto.
+    eexists. reflexivity.
+Qed.
+
+(* the trimmed parameter list of a printed ranking aggregate *)
+Lemma ident_nws v : ident v = true -> first_nws v = true /\ last_nws v = true.
+Proof.
+  unfold ident. destruct v as [|c v]; [discriminate|]. intros H.
+  apply plain_nws_first. discriminate. eapply forallb_impl; [apply idc_lc|exact H].
+Qed.
+Definition is_ann (a : str) : Prop := a = [] \/ a = lit ":desc"%string \/ a = lit ":asc"%string.
+Lemma part_ok v a : ident v = true -> is_ann a ->
+  first_nws (v ++ a) = true /\ last_nws (v ++ a) = true /\ nocomma (v ++ a) = true.
+Proof.
+  intros I A. destruct (ident_nws v I) as [F L]. pose proof (ident_nocomma v I) as NC.
+  split; [apply first_nws_app; exact F|].
+  destruct A as [->|[->| ->]].
+  - rewrite app_nil_r. auto.
+  - split. apply last_nws_app. reflexivity. unfold nocomma in *. rewrite forallb_app, NC. reflexivity.
+  - split. apply last_nws_app. reflexivity. unfold nocomma in *. rewrite forallb_app, NC. reflexivity.
+Qed.
+Lemma ann_t_is ord single desc v : is_ann (ann_t ord single desc v).
+Proof. unfold ann_t, is_ann. destruct (str_eqb v ord); [destruct (single && desc); [|destruct desc]|]; auto. Qed.
+Lemma ann_w_is dv single v : is_ann (ann_w dv single v).
+Proof. unfold ann_w, is_ann. destruct (str_eqb v dv); [destruct single|]; auto. Qed.
+
+Lemma trim_parts ps : Forall (fun p => first_nws p = true /\ last_nws p = true) ps ->
+  List.map trim (List.map (cons 32) ps) = ps.
+Proof.
+  induction 1 as [|p ps [F L] _ IH]. reflexivity.
+  cbn [List.map]. rewrite trim_sp, (trim_id p F L), IH. reflexivity.
+Qed.
+Lemma digits_trim ds : forallb is_digit ds = true -> trim ds = ds /\ nocomma ds = true.
+Proof.
+  intros H. split.
+  - apply trim_all_nws. eapply forallb_impl; [|exact H]. intros c D. rewrite (idc_nws c (digit_idc c D)). reflexivity.
+  - unfold nocomma. eapply forallb_impl; [|exact H]. intros c D. clear - D. cfact.
+Qed.
+Lemma disp_trim b : disp_ok E b = true ->
+  trim (e_disp E b) = e_disp E b /\ nocomma (e_disp E b) = true /\ parse_f64 E (e_disp E b) = Some b /\
+  first_nws (e_disp E b) = true /\ last_nws (e_disp E b) = true.
+Proof.
+  intros D. destruct (disp_text E b D) as [NE L]. destruct (plain_nws_first _ NE L) as [F La].
+  repeat split; auto.
+  - apply trim_id; auto.
+  - unfold nocomma. eapply forallb_impl; [|exact L]. intros c H. clear - H. cfact.
+  - unfold disp_ok in D. apply andb_true_iff in D as [_ P]. unfold optN_is in P.
+    destruct (parse_f64 E (e_disp E b)); try discriminate. apply N.eqb_eq in P. subst. reflexivity.
+Qed.
+
+Lemma parts_forall (f : str -> str) outs :
+  (forall v, ident v = true -> first_nws (f v) = true /\ last_nws (f v) = true /\ nocomma (f v) = true) ->
+  forallb ident outs = true ->
+  Forall (fun p => first_nws p = true /\ last_nws p = true) (List.map f outs) /\
+  forallb nocomma (List.map f outs) = true.
+Proof.
+  intros H I. induction outs as [|v outs IH]; cbn [List.map forallb]. split; [constructor|reflexivity].
+  cbn [forallb] in I. apply andb_true_iff in I as [Iv Io]. destruct (IH Io) as [A B].
+  destruct (H v Iv) as (F & L & N). split. constructor; auto. rewrite N, B. reflexivity.
+Qed.
+
+Lemma pt_agg_rank rec g : wf_aggf E g [] = true -> is_ranking g = true ->
+  parse_term_step E rec (rk_name g ++ 60 :: rk_params E g ++ [62]) = Some (TAgg g []).
+Proof.
+  intros W R. destruct (rk_shape E g [] W R) as (PI & F45 & _ & NE & I).
+  assert (FC : exists x t, rk_name g = x :: t /\ idc x = true).
+  { destruct (rk_name g) as [|x t]; try congruence. exists x, t. cbn [forallb] in I.
+    apply andb_true_iff in I. tauto. }
+  destruct FC as (x & t & EN & IX).
+  rewrite step_skip.
+  2:{ rewrite EN. repeat split.
+      - apply str_eqb_len. cbn [app length]. rewrite app_length. cbn [length]. lia.
+      - cbn [app first_is]. apply N.eqb_neq. intros ->. discriminate.
+      - cbn [app first_is]. apply N.eqb_neq. intros ->. discriminate. }
+  unfold pt_agg.
+  rewrite (find_char_hit 60 (rk_name g) (rk_params E g ++ [62]) [])
+    by (eapply forallb_impl; [|exact I]; intros c H; apply plain_nolt, idc_plain, H).
+  change (rk_name g ++ 60 :: rk_params E g ++ [62]) with (rk_name g ++ (60 :: rk_params E g) ++ [62]).
+  rewrite app_assoc, last_is_snoc. cbn [rev app]. rewrite removelast_last.
+  destruct g as [| | | | | |k ord outs desc|k ord outs thr desc|dv outs maxd]; try discriminate;
+    cbn [wf_aggf] in W; cbn [rk_name rk_params].
+  - (* top_k *)
+    apply andb_true_iff in W as [W _]. apply andb_true_iff in W as [K WO]. apply N.ltb_lt in K.
+    destruct (wf_outs_parts ord outs WO) as (NO & IO & CO).
+    destruct (digits_trim _ (show_N_digits k)) as [TK NK].
+    destruct (parts_forall (fun v => v ++ ann_t ord (is_single outs) desc v) outs
+                (fun v Iv => part_ok v _ Iv (ann_t_is ord (is_single outs) desc v)) IO) as [PF PN].
+    change (trim (lit "top_k")) with (lit "top_k"). change (to_lower (lit "top_k")) with (lit "top_k").
+    change (std_agg (lit "top_k")) with (@None aggf). change (str_eqb (lit "top_k") (lit "top_k")) with true.
+    cbv iota. unfold parse_top_k.
+    rewrite show_outs_concat. rewrite <- (map_map (fun v => v ++ ann_t ord (is_single outs) desc v) (fun p => 44 :: 32 :: p)).
+    rewrite split_comma_parts by auto. cbn [rev app]. rewrite map_cons, TK, trim_parts by exact PF.
+    destruct (List.map (fun v => v ++ ann_t ord (is_single outs) desc v) outs) eqn:M.
+    { apply map_eq_nil in M. exfalso. apply NO. exact M. }
+    rewrite <- M. rewrite (parse_usize_show k K), (parse_annotated_topk ord outs desc WO). reflexivity.
+  - (* top_k_threshold *)
+    apply andb_true_iff in W as [W _]. apply andb_true_iff in W as [W DO]. apply andb_true_iff in W as [W _].
+    apply andb_true_iff in W as [K WO]. apply N.ltb_lt in K.
+    destruct (wf_outs_parts ord outs WO) as (NO & IO & CO).
+    destruct (digits_trim _ (show_N_digits k)) as [TK NK].
+    destruct (disp_trim thr DO) as (TT & NT & PT & FT & LT).
+    destruct (parts_forall (fun v => v ++ ann_t ord (is_single outs) desc v) outs
+                (fun v Iv => part_ok v _ Iv (ann_t_is ord (is_single outs) desc v)) IO) as [PF PN].
+    change (trim (lit "top_k_threshold")) with (lit "top_k_threshold").
+    change (to_lower (lit "top_k_threshold")) with (lit "top_k_threshold").
+    change (std_agg (lit "top_k_threshold")) with (@None aggf).
+    change (str_eqb (lit "top_k_threshold") (lit "top_k")) with false.
+    change (str_eqb (lit "top_k_threshold") (lit "top_k_threshold")) with true.
+    cbv iota. unfold parse_top_k_thr.
+    rewrite show_outs_concat. rewrite <- (map_map (fun v => v ++ ann_t ord (is_single outs) desc v) (fun p => 44 :: 32 :: p)).
+    change (show_N k ++ [44; 32] ++ e_disp E thr ++ concat (List.map (fun p => 44 :: 32 :: p) (List.map (fun v => v ++ ann_t ord (is_single outs) desc v) outs)))
+      with (show_N k ++ concat (List.map (fun p => 44 :: 32 :: p) (e_disp E thr :: List.map (fun v => v ++ ann_t ord (is_single outs) desc v) outs))).
+    rewrite split_comma_parts
+      by (first [exact NK | (cbn [forallb]; apply andb_true_iff; split; [exact NT|exact PN])]).
+    cbn [rev app]. rewrite !map_cons, TK, trim_sp, TT, trim_parts by exact PF.
+    destruct (List.map (fun v => v ++ ann_t ord (is_single outs) desc v) outs) eqn:M.
+    { apply map_eq_nil in M. exfalso. apply NO. exact M. }
+    rewrite <- M. rewrite (parse_usize_show k K), PT, (parse_annotated_topk ord outs desc WO). reflexivity.
+  - (* within_radius *)
+    apply andb_true_iff in W as [W _]. apply andb_true_iff in W as [W _]. apply andb_true_iff in W as [W DO].
+    apply andb_true_iff in W as [WO _].
+    destruct (wf_outs_parts dv outs WO) as (NO & IO & CO).
+    destruct (disp_trim maxd DO) as (TT & NT & PT & FT & LT).
+    destruct (parts_forall (fun v => v ++ ann_w dv (is_single outs) v) outs
+                (fun v Iv => part_ok v _ Iv (ann_w_is dv (is_single outs) v)) IO) as [PF PN].
+    change (trim (lit "within_radius")) with (lit "within_radius").
+    change (to_lower (lit "within_radius")) with (lit "within_radius").
+    change (std_agg (lit "within_radius")) with (@None aggf).
+    change (str_eqb (lit "within_radius") (lit "top_k")) with false.
+    change (str_eqb (lit "within_radius") (lit "top_k_threshold")) with false.
+    change (str_eqb (lit "within_radius") (lit "within_radius")) with true.
+    cbv iota. unfold parse_within.
+    rewrite show_outs_within_concat. rewrite <- (map_map (fun v => v ++ ann_w dv (is_single outs) v) (fun p => 44 :: 32 :: p)).
+    rewrite split_comma_parts by auto. cbn [rev app]. rewrite map_cons, TT, trim_parts by exact PF.
+    destruct (List.map (fun v => v ++ ann_w dv (is_single outs) v) outs) eqn:M.
+    { apply map_eq_nil in M. exfalso. apply NO. exact M. }
+    rewrite <- M. destruct (parse_annotated_within dv outs WO) as [d PA]. rewrite PT, PA. reflexivity.
+Qed.
+
 (* ------------------------------------------------------------------ the term round trip *)
 Theorem parse_term_rt t : wf_term E t = true ->
   forall n, (tneed t <= n)%nat -> parse_term E n (show_term E t) = Some t.
@@ -427,7 +763,10 @@ Proof.
   - apply pt_var; auto.
   - apply pt_int; auto.
   - reflexivity.
-  - destruct (std_agg_name E g v W) as (_ & _ & R & _). rewrite R. apply pt_agg_std; auto.
+  - destruct (is_ranking g) eqn:R.
+    + destruct (rk_shape E g v W R) as (_ & _ & -> & _). rewrite (show_aggf_rk E g R).
+      apply pt_agg_rank; auto.
+    + apply pt_agg_std; auto.
   - apply andb_true_iff in W as [W NF]. apply andb_true_iff in W as [B W].
     destruct a; try discriminate. apply pt_arith; auto. apply negb_true_iff; auto.
   - apply andb_true_iff in W as [WB WA]. apply pt_fun; auto.
